@@ -2,9 +2,12 @@
 
 use crate::core::Scenario;
 
+pub mod c02;
 pub mod c08;
 pub mod c09;
 pub mod c10;
+pub mod c15;
+pub mod serial;
 pub mod signnode;
 
 pub fn all() -> Vec<Box<dyn Scenario>> {
@@ -17,6 +20,13 @@ pub fn all() -> Vec<Box<dyn Scenario>> {
         Box::new(c09::C09Stub),
         Box::new(c10::Adversary { judge: c10::Judge::Model }),
         Box::new(c10::Adversary { judge: c10::Judge::Invariants }),
+        Box::new(c02::C02),
+        Box::new(c15::C15Read),
+        Box::new(c15::C15Write),
+        Box::new(c15::C15Compositions),
+        Box::new(serial::C16),
+        Box::new(serial::C18),
+        Box::new(serial::C20),
     ]
 }
 
@@ -50,6 +60,12 @@ pub fn expected_probes(name: &str) -> Vec<&'static str> {
             "abandoned_transfer_then_reset",
         ],
         "c12-flood" => vec!["counter_taken_past_65535"],
+        "c02-wire-damage" => vec!["ok_same_frame_case_change", "ok_same_frame_terminator_only", "err_invalid", "err_length", "err_checksum", "variants_through_stream_reader", "lf_inserted_mid_line"],
+        "c15-read" => vec!["eintr", "eof", "io_error", "eintr_mid_line", "line_without_lf_at_eof", "error_at_first_call", "error_at_last_call", "hard_error_placements"],
+        "c15-write" => vec!["eintr", "short_write", "io_error", "write_zero", "short_write_1_byte", "hard_error_placements", "write_zero_placements"],
+        "c15-compositions" => vec!["compositions_enumerated"],
+        "c16-serial-exchange" => vec!["eintr", "short_write", "io_error", "timeout", "eof", "unknown_that_looks_like_hello", "fault_at_each_op_index"],
+        "c18-pacing" => vec!["chunk_followed_by_paced_write", "in_progress_report_paced"],
         "c10-adversarial-bus" => vec!["bus_error", "conversation_ge_10_turns", "polled_3_or_more_times", "foreign_reply_at:Hello1", "foreign_reply_at:ResultQuery", "foreign_reply_at:Poll", "foreign_reply_at:RequestAck", "foreign_reply_at:CinHello", "foreign_reply_at:FinalQuery"],
         "c11-adversarial-bus" => vec![
             "bus_error",
